@@ -274,7 +274,7 @@ func (f *FnEnc) havocAll(st *State) {
 	for _, so := range allClasses {
 		setHeap(st, so, f.c.fresh("Hhv"+className(so), heapSort(so)))
 	}
-	for k := range st.heaps {
+	for _, k := range sortedHeapKeys(st.heaps) {
 		if strings.HasPrefix(k, "map:") {
 			delete(st.heaps, k)
 		}
@@ -394,6 +394,7 @@ func pkgOf(fn *ssa.Function) *types.Package {
 func (f *FnEnc) checkInvariant(fr *Frame, li *loopInfo, ls *LoopSpec, st *State, cond, phase string) {
 	for i, inv := range ls.Invariants {
 		se := f.specEnvFor(fr, st, cond)
+		se.goal = true
 		label := inv.Label
 		if label == "" {
 			label = fmt.Sprint(i + 1)
@@ -408,7 +409,7 @@ func (f *FnEnc) checkInvariant(fr *Frame, li *loopInfo, ls *LoopSpec, st *State,
 		for name, v := range f.params {
 			watch = append(watch, WatchTerm{Text: name, Terms: v.L})
 		}
-		for a := range li.modLocal {
+		for _, a := range sortedAllocSet(li.modLocal) {
 			if cur, ok := st.locals[a]; ok {
 				watch = append(watch, WatchTerm{Text: "local " + a.Comment, Terms: cur})
 			}
@@ -456,7 +457,7 @@ func (f *FnEnc) havocLoop(fr *Frame, li *loopInfo, ls *LoopSpec, st *State) *Sta
 		f.c.assume("true", "(<= "+st.alloc+" "+na+")")
 		st.alloc = na
 	}
-	for a := range li.modLocal {
+	for _, a := range sortedAllocSet(li.modLocal) {
 		t := derefType(a.Type())
 		v := f.freshVal("lh_"+a.Comment, t)
 		st.locals[a] = v.L
@@ -465,7 +466,7 @@ func (f *FnEnc) havocLoop(fr *Frame, li *loopInfo, ls *LoopSpec, st *State) *Sta
 }
 
 func (f *FnEnc) assumeInvariant(fr *Frame, li *loopInfo, ls *LoopSpec, st *State, R string) {
-	for a := range li.modLocal {
+	for _, a := range sortedAllocSet(li.modLocal) {
 		t := derefType(a.Type())
 		f.c.assume(R, f.wf(st, Val{T: t, L: st.locals[a]}))
 	}
@@ -771,6 +772,7 @@ func (f *FnEnc) callAssertsNamed(fr *Frame, st *State, R string, short string, o
 			se.vars[fmt.Sprintf("arg%d", i)] = args[i]
 		}
 		label := ca.Clause.Label
+		se.goal = true
 		f.c.oblige(Item{Guard: R, Formula: f.evalClause(se, ca.Clause), Name: f.eng.fnKey(fr.fn) + fmt.Sprintf("/at-call:%s#%d:%s", short, ord, label), Class: "assert",
 			Pos: f.pos(pos), Text: ca.Clause.Text})
 	}
@@ -795,6 +797,7 @@ func (f *FnEnc) applyContract(fr *Frame, st *State, R string, con *Contract, nam
 	for i, rq := range con.Requires {
 		se := mk(st)
 		se.old = nil
+		se.goal = true
 		label := rq.Label
 		if label == "" {
 			label = fmt.Sprint(i + 1)
